@@ -1,7 +1,7 @@
 use serde::{Deserialize, Serialize};
 
 use crate::{
-    Document, FatToken, Punctuation, TokenKind,
+    Document, FatToken, Punctuation, Span, TokenKind,
     linting::{Lint, LintKind, Suggestion},
 };
 
@@ -27,12 +27,11 @@ impl LintContext {
         } = lint.clone();
 
         let problem_tokens = document.token_indices_intersecting(lint.span);
-        let prequel_tokens = lint
-            .span
-            .with_len(2)
-            .pulled_by(2)
-            .map(|v| document.token_indices_intersecting(v))
-            .unwrap_or_default();
+        // Up to two characters before the lint (fewer at the very start of the document).
+        let prequel_tokens = document.token_indices_intersecting(Span::new(
+            lint.span.start.saturating_sub(2),
+            lint.span.start,
+        ));
         // The two characters directly after the lint (not two characters into it).
         let sequel_tokens = document
             .token_indices_intersecting(lint.span.with_len(2).pushed_by(lint.span.len()));
